@@ -86,6 +86,18 @@ CHECKS = [
           "one; a returned message precedes everything enqueued after its return; nothing matching starves while the consumer polls; "
           "queue lengths cross Redis's fetch window of 10; a spinning broker call (step watchdog) is reported.",
   "note": _MODEL + _SRV + " Open known finding D20 (RabbitMQ foreign-topic head-of-line blocking under a small prefetch limit) is excluded by signature."},
+ {"property_id": "C16", "level": "exploration", "design_ref": "DESIGN.md §4 C16",
+  "technique": "model-based property-based testing of message-API call sequences on handles of every category and retry state; generated actor programmes for callback/result-store order",
+  "text": "Per handle a small state model (usable / refused by category / refused by budget / consumed) predicts for every generated call whether "
+          "it raises and which single broker call it may cause (observed at the connection boundary); actor programmes check callback order, "
+          "position and value of the lazily placed result store, and that nothing runs after the eager response.",
+  "note": _MODEL + _SRV},
+ {"property_id": "C18", "level": "exploration", "design_ref": "DESIGN.md §4 C18",
+  "technique": "property-based testing over generated dependency DAGs (exec-ed providers) against a recursive reference evaluator, with override sequences, failing providers and invalid declarations",
+  "text": "Random DAGs with shared nodes, sync/async providers and message-dependency leaves are resolved by a real Worker; a 15-line recursive "
+          "evaluator over the current graph gives the expected value of every dependency parameter; overrides are applied between jobs; provider "
+          "failure must follow the retry ladder without running the body; unsupported declarations must raise at declaration time.",
+  "note": _MODEL + " In-memory broker only (dependency resolution is broker-independent)."},
  {"property_id": "C19", "level": "exploration", "design_ref": "DESIGN.md §4 C19",
   "technique": "property-based testing (Hypothesis) of pure functions against arithmetic oracles under a pinned clock",
   "text": "Generated search (tens of thousands of inputs per run, boundary classes constructed on purpose: exact period multiples ±1µs, "
